@@ -18,6 +18,7 @@ package pseudonymization
 
 import (
 	"encoding/binary"
+	"errors"
 	"github.com/cossacklabs/acra/pseudonymization/common"
 )
 
@@ -32,11 +33,20 @@ func encodeInt64(v int64) []byte {
 	return d
 }
 
+// ErrInvalidIntegerLength is returned when a stored integer token value is not as long as encodeInt32/encodeInt64 make it
+var ErrInvalidIntegerLength = errors.New("stored integer token value has invalid length")
+
 func decodeInt32(data []byte) (int32, error) {
+	if len(data) != 4 {
+		return 0, ErrInvalidIntegerLength
+	}
 	return int32(binary.LittleEndian.Uint32(data)), nil
 }
 
 func decodeInt64(data []byte) (int64, error) {
+	if len(data) != 8 {
+		return 0, ErrInvalidIntegerLength
+	}
 	return int64(binary.LittleEndian.Uint64(data)), nil
 }
 
